@@ -1,4 +1,5 @@
 import Driver.Framing
+import Driver.C01X
 namespace DriverC01
 open Proto Framing DriverFraming
 
@@ -6,7 +7,7 @@ open Proto Framing DriverFraming
 messages, no chunk is empty, every chunk consists of whole frames and obeys the batching
 contract (`batchingOk`; exact chunk boundaries are not otherwise compared).  dec (valid stream cut
 anywhere): exactly the original messages in order, then a clean end. -/
-def handle (case obs : List String) : String × String :=
+def handleCore (case obs : List String) : String × String :=
   match parseCase case with
   | none => bad
   | some (.enc c) =>
@@ -21,7 +22,11 @@ def handle (case obs : List String) : String × String :=
               ("bytes-are-spec-framing-of-messages", eqFrames ds expected),
               ("no-empty-chunk", ds.all (fun d => !d.isEmpty)),
               ("chunks-are-whole-frames", sp.all (fun d => d.2.2.isEmpty)),
-              ("batching-contract", batchingOkSplit c sp)])
+              ("batching-contract", batchingOkSplit c sp),
+              -- what hyper consults between polls (audit aC01): a true `is_end_stream()` with frames still
+              -- to come, or a `size_hint()` the remaining bytes do not respect, cuts the body short on the wire
+              ("is-end-stream-only-when-nothing-more-comes", endStreamOk c.cfg.server obs),
+              ("size-hint-is-sound", sizeHintOk obs)])
   | some (.dec c) =>
     let (frs, left) := Spec.Framing.split (grpcData c)
     -- each frame's payload (decompressed by the reference decompressor) read by the case's message
@@ -33,4 +38,15 @@ def handle (case obs : List String) : String × String :=
               ("case-is-valid-stream", left.isEmpty && msgs.length == frs.length),
               ("messages-in-order", obsMsgs obs == msgs),
               ("then-clean-end", !rest.isEmpty && rest.all (fun t => t = "n"))])
+
+/-- The audit's case kinds (harness/src/c01_x.rs): `xenc` / `rdec` wrap a case in a dimension that
+has to be invisible — the wrapped case's prediction and verdict apply unchanged; `xdec` and `rt`
+have their own (Driver/C01X.lean). -/
+def handle (case obs : List String) : String × String :=
+  match case with
+  | "xenc" :: flv :: rest => if DriverC01X.okEFlavour flv then handleCore rest obs else bad
+  | "rdec" :: st :: rest => if DriverC01X.okRStyle st then handleCore rest obs else bad
+  | "xdec" :: flv :: ops :: rest => DriverC01X.handleXdec flv ops rest obs
+  | "rt" :: _ => DriverC01X.handleRt case obs
+  | _ => handleCore case obs
 end DriverC01
